@@ -29,7 +29,7 @@ for d in sorted(glob.glob(os.path.join(HERE, "seeded", "C*-*"))):
         verdict += " → caught after strengthening"
         first_sig = after.replace("KILLED ", "")[:70]
     elif s.get("note"):
-        verdict = "not judged (outside the statement's quantifier)"
+        verdict = "not judged (outside what the statement fixes)"
         strengthen = s["note"]
     rows.append((sid, summary[:150], needs[:150], "yes" if demo_ok else "CHECK", "yes" if suite_ok else "CHECK", verdict, first_sig, strengthen))
 
@@ -41,7 +41,7 @@ caught = sum(1 for r in rows if r[5] == "caught")
 missed = sum(1 for r in rows if r[5].startswith("missed") and "caught after" in r[5])
 open_ = sum(1 for r in rows if r[5].startswith("missed") and "caught after" not in r[5])
 notj = sum(1 for r in rows if r[5].startswith("not judged"))
-head = f"{len(rows)} seeded changes confirmed; {caught} caught by the quick check as it stood, {missed} missed at first and caught after the monitor was strengthened (generator / shapes widened, verdicts never loosened), {open_} still missed, {notj} not judged because its trigger lies outside the statement's quantifier.\n\n"
+head = f"{len(rows)} seeded changes confirmed; {caught} caught by the quick check as it stood, {missed} missed at first and caught after the monitor was strengthened (generator / shapes widened, verdicts never loosened), {open_} still missed, {notj} not judged because what they change is outside what the statement fixes (reason in the last column).\n\n"
 table = head + "\n".join(lines) + "\n"
 open(os.path.join(HERE, "seeded", "RESULTS.md"), "w").write("# Independently seeded changes\n\n" + table)
 p = os.path.join(HERE, "DESIGN.md")
